@@ -11,7 +11,7 @@
    Dict, Relation, UnionSet, GenericSet, True/Empty) are tied to this semantics
    by the correspondence run, which compares the denotation of every
    implementation result with [run_data]. *)
-From Arrai Require Import Base.Val Spec.SetAlg Eval.Interp Proofs.ValOrder Proofs.SetAlgP Sys.Heap Rep.SeqRep Proofs.WfP Proofs.WhereP Rep.DictRep Proofs.DictRepP.
+From Arrai Require Import Base.Val Spec.SetAlg Eval.Interp Proofs.ValOrder Proofs.SetAlgP Sys.Heap Rep.SeqRep Proofs.WfP Proofs.WhereP.
 
 Theorem C01_order_is_total_and_eq_is_identity :
   forall a b c, vcmp a a = Eq /\ (vcmp a b = Eq -> a = b) /\
@@ -146,6 +146,7 @@ Theorem C01_darrow_is_image :
 Proof. exact darrow_is_image. Qed.
 Print Assumptions C01_darrow_is_image.
 
+From Arrai Require Import Rep.DictRep Proofs.DictRepP.
 (* ---- the dictionary representation (rel/value_set_dict.go transcribed in Rep/DictRep.v: one value or a set of
    several values per key) refines the set of (@: k, @value: v) pairs it denotes.  Invariant: distinct keys and every
    several-values slot holds at least two different values. ---- *)
@@ -204,3 +205,14 @@ Example C01_dict_probe :
   let r := fold_left dstep [DWith (e 1 3); DWith (e 2 5); DWithout (e 1 2)] (new_dict true [(vint 1, vint 2)]) in
   res_ok r /\ r = RDict [(vint 1, One (vint 3)); (vint 2, One (vint 5))].
 Proof. vm_compute. repeat split; discriminate. Qed.
+
+
+(* the set builder of rel/ (rel.NewSet, transcribed in Rep/Builder.v): a value is a member of the built set exactly when it
+   is the denotation of one of the members given - none dropped, none invented - for every member list in the well-formed
+   region and on which Equal is sound (see Properties/C02.v C02_builder_denotes_members for both hypotheses) *)
+From Arrai Require Import Rep.Builder Proofs.BuilderAllP Proofs.BuilderCorP.
+Theorem C01_set_builder_membership :
+  forall ms r, build ms = BOk r -> wf_members ms -> equal_sound_on ms ->
+    forall v, In v (set_elems (abs r)) <-> exists m, In m ms /\ v = abs m.
+Proof. exact set_builder_membership. Qed.
+Print Assumptions C01_set_builder_membership.
